@@ -846,6 +846,154 @@ fn e2e_body(c: &CompCase, rec: &mut Rec) -> CaseResult {
 }
 
 // ---------------------------------------------------------------------------------------------
+// end to end, forged: the genuine NSEC of a wildcard owner `*.X` and its genuine RRSIG, both
+// renamed to a name `q` below X, so that the signature verifies the way a wildcard-expanded RRset
+// does (RRSIG Labels < labels of q). NSEC RRs are never synthesised (RFC 4035 2.3 / RFC 4592 4.3);
+// read "per RFC 4035 5.4" such a record is no statement about q at all. Presented as the NODATA
+// proof for (q, qtype): if the validator accepts it although (q, qtype) exists, or q does not
+// exist, the claim was accepted without being entailed.
+
+#[derive(Clone)]
+struct ForgingHandle {
+    inner: zb::CatalogHandle,
+    qname: Name,
+    qtype: hickory_proto::rr::RecordType,
+    forged: std::sync::Arc<hickory_proto::op::Message>,
+}
+
+impl hickory_net::xfer::DnsHandle for ForgingHandle {
+    type Response = <zb::CatalogHandle as hickory_net::xfer::DnsHandle>::Response;
+    type Runtime = crate::sim::SimRt;
+
+    fn send(&self, request: hickory_proto::op::DnsRequest) -> Self::Response {
+        let hit = request.queries.first().is_some_and(|q| q.query_type == self.qtype && q.name.to_lowercase() == self.qname.to_lowercase());
+        if !hit {
+            return self.inner.send(request);
+        }
+        let mut m = (*self.forged).clone();
+        m.metadata.id = request.metadata.id;
+        Box::pin(futures_util::stream::once(async move {
+            let bytes = m.to_vec().map_err(|e| hickory_net::NetError::from(format!("encode: {e}")))?;
+            hickory_proto::op::DnsResponse::from_buffer(bytes).map_err(|e| hickory_net::NetError::from(format!("decode: {e}")))
+        }))
+    }
+}
+
+fn forged_expansion_body(c: &CompCase, rec: &mut Rec) -> CaseResult {
+    use futures_util::StreamExt;
+    use hickory_net::dnssec::DnssecDnsHandle;
+    use hickory_net::xfer::DnsHandle;
+    use hickory_proto::dnssec::rdata::DNSSECRData;
+    use hickory_proto::dnssec::Proof;
+    use hickory_proto::op::{DnsRequestOptions, Message, MessageType, OpCode};
+    use hickory_proto::rr::{RData, RecordType};
+
+    let cx = hk_ctx(&c.zone)?;
+    let (zone, hz) = (&cx.0, &cx.1);
+    let q = abs_q(zone, c.q.as_str());
+    let qn = to_name(&q);
+    // the closest wildcard owner *.X of the generated chain with X a proper ancestor of q
+    let wild = hz
+        .chain_nsec
+        .iter()
+        .map(|(n, _)| n)
+        .filter(|n| n.is_wildcard() && n.base_name().zone_of(&qn) && n.base_name().num_labels() < qn.num_labels() && !qn.is_wildcard())
+        .max_by_key(|n| n.num_labels())
+        .cloned();
+    let Some(wild) = wild else {
+        rec.discard("no-wildcard-owner-above-the-query-name");
+        return Ok(());
+    };
+    // its genuine NSEC + RRSIG, and the SOA + RRSIG, from honest negative answers of the server
+    let is_sig_of = |r: &Record, t: RecordType| matches!(&r.data, RData::DNSSEC(DNSSECRData::RRSIG(s)) if s.input().type_covered == t);
+    let mut nsec: Vec<Record> = vec![];
+    let mut soa: Vec<Record> = vec![];
+    for t in [RecordType::Unknown(65280), RecordType::MX, RecordType::TXT, RecordType::A] {
+        let m = zb::ask(hz, &wild, t).map_err(|e| Fail::new("harness-ask", e))?;
+        let own = |r: &&Record| r.name.to_lowercase() == wild.to_lowercase();
+        let n: Vec<Record> = m.authorities.iter().filter(own).filter(|r| r.record_type() == RecordType::NSEC || is_sig_of(r, RecordType::NSEC)).cloned().collect();
+        if n.iter().any(|r| r.record_type() == RecordType::NSEC) && n.iter().any(|r| r.record_type() == RecordType::RRSIG) {
+            nsec = n;
+            soa = m.authorities.iter().filter(|r| r.record_type() == RecordType::SOA || is_sig_of(r, RecordType::SOA)).cloned().collect();
+            break;
+        }
+    }
+    if nsec.is_empty() || soa.is_empty() {
+        rec.discard("server-does-not-hand-out-the-wildcard-nsec");
+        return Ok(());
+    }
+    let bitmap_has = nsec.iter().any(|r| match &r.data {
+        RData::DNSSEC(DNSSECRData::NSEC(n)) => n.type_bit_maps().any(|t| u16::from(t) == c.qtype),
+        _ => false,
+    });
+    if bitmap_has {
+        rec.discard("wildcard-owns-the-query-type");
+        return Ok(());
+    }
+    let mut forged = Message::new(0, MessageType::Response, OpCode::Query);
+    forged.metadata.authoritative = true;
+    forged.add_query(Query::new(qn.clone(), rtype(c.qtype)));
+    for r in soa {
+        forged.add_authority(r);
+    }
+    for mut r in nsec {
+        r.name = qn.clone();
+        forged.add_authority(r);
+    }
+    let truth = zone.truth(&q, c.qtype);
+    rec.class(format!("truth-{}", truth.kind()));
+    let claim_false = matches!(truth, Truth::Positive | Truth::NxDomain { .. } | Truth::WildAnswer { .. });
+    rec.class(if claim_false { "forged-nodata-claim-is-false" } else { "forged-nodata-claim-happens-to-be-true-or-undecidable" });
+    if claim_false {
+        rec.nontrivial();
+    }
+
+    let mut sim = crate::sim::Sim::new(zb::T0 + 60);
+    let handle = ForgingHandle {
+        inner: zb::CatalogHandle { catalog: hz.catalog.clone(), log: Default::default() },
+        qname: qn.clone(),
+        qtype: rtype(c.qtype),
+        forged: std::sync::Arc::new(forged),
+    };
+    let dh = DnssecDnsHandle::with_trust_anchor(handle, zb::trust_anchor(hz)).validation_cache_size(256);
+    let query = Query::new(qn.clone(), rtype(c.qtype));
+    let r = sim
+        .run(
+            async move {
+                let mut s = dh.lookup(query, DnsRequestOptions::default());
+                s.next().await
+            },
+            10_000,
+        )
+        .map_err(|e| Fail::new("harness-sim", format!("simulation ended with {e:?}")))?;
+    let accepted = match &r {
+        Some(Ok(resp)) => {
+            resp.answers.is_empty()
+                && resp.metadata.response_code == ResponseCode::NoError
+                && resp.authorities.iter().filter(|r| r.record_type() == RecordType::NSEC).all(|r| r.proof == Proof::Secure)
+                && resp.authorities.iter().any(|r| r.record_type() == RecordType::NSEC)
+        }
+        _ => false,
+    };
+    rec.class(if accepted { "forged-expansion-accepted" } else { "forged-expansion-rejected" });
+    if rec.wants_note() {
+        rec.note(format!("zone [{}] query {qn} {} truth {truth}: NSEC of {wild} renamed to the query name", zone.render(), ty::mnemonic(c.qtype)));
+    }
+    if accepted && claim_false {
+        return triage(Fail::new(
+            "nsec-wildcard-owner-nsec-accepted-under-expanded-name",
+            format!(
+                "zone [{}] query {qn} {} truth {truth}: NODATA accepted as Secure on the NSEC of {wild} presented under the owner name {qn} with its genuine RRSIG (a \"wildcard-expanded\" NSEC); outcome {:?}",
+                zone.render(),
+                ty::mnemonic(c.qtype),
+                r.as_ref().map(|x| x.as_ref().map(|m| (m.metadata.response_code, m.authorities.iter().map(|a| (a.record_type(), a.proof)).collect::<Vec<_>>())).map_err(|e| e.to_string()))
+            ),
+        ));
+    }
+    Ok(())
+}
+
+// ---------------------------------------------------------------------------------------------
 // the chain hickory generates = the chain RFC 4035 §2.3 prescribes (the property's state anchor)
 
 #[derive(Clone, Debug, Serialize, Deserialize)]
@@ -975,10 +1123,11 @@ pub fn check() -> Option<Check> {
     );
     let comp_sampled = prop("complete_sampled", 20_000, 600_000, |_t: Tier| sampled_comp(8), comp_body);
     let comp_e2e = prop("complete_e2e", 5_000, 150_000, |_t: Tier| sampled_comp(6), e2e_body);
+    let forged_e2e = prop("sound_forged_expansion_e2e", 20_000, 400_000, |_t: Tier| sampled_comp(6), forged_expansion_body);
     Some(Check {
         id: "C08",
         level: "exploration",
-        rule: "soundness case = (zone over labels {a,b,*} to depth 3 with hosts, CNAMEs, wildcards at several depths, empty non-terminals, delegations +/-DS, glue/occluded names; query name in or just outside the zone incl. labels c ! ~ and `*` in query names; query types) evaluated for every claim (NXDOMAIN, NODATA, each wildcard-expanded answer for which a genuine RRSIG exists, NXDOMAIN+answer) x SOA name present/absent x every non-empty subset of the zone's genuine NSEC chain (all 2^k-1 subsets for k<=6, otherwise singletons, full, full-minus-one and 48 pseudo-random subsets); counted non-trivial when the query name is in the zone (then some evaluated claim is false, or some subset is Secure, or proper subsets of a sufficient proof are tried); counters give verify_nsec calls, Secure verdicts, true/false claims. sound_enum is the exhaustive depth-2 sweep (quick <=3 owners, thorough <=4 owners, i.e. k<=5), sound_slice a 1/48 (quick, 4 owners) resp. 1/8 (thorough, 5 owners) slice of the next size. chain_* compare the NSEC chain hickory generates with the RFC 4035 2.3 chain of the model. Completeness case = (zone, query) whose truth is negative or wildcard-expanded, answered by hickory's own signed zone through Catalog::handle_request and judged by verify_nsec (complete_enum exhaustive over depth-2 zones with <=2/<=4 owners x 32 names x 4 types; complete_sampled deeper zones) and by the real DnssecDnsHandle (complete_e2e); every such case is non-trivial.",
+        rule: "soundness case = (zone over labels {a,b,*} to depth 3 with hosts, CNAMEs, wildcards at several depths, empty non-terminals, delegations +/-DS, glue/occluded names; query name in or just outside the zone incl. labels c ! ~ and `*` in query names; query types) evaluated for every claim (NXDOMAIN, NODATA, each wildcard-expanded answer for which a genuine RRSIG exists, NXDOMAIN+answer) x SOA name present/absent x every non-empty subset of the zone's genuine NSEC chain (all 2^k-1 subsets for k<=6, otherwise singletons, full, full-minus-one and 48 pseudo-random subsets); counted non-trivial when the query name is in the zone (then some evaluated claim is false, or some subset is Secure, or proper subsets of a sufficient proof are tried); counters give verify_nsec calls, Secure verdicts, true/false claims. sound_enum is the exhaustive depth-2 sweep (quick <=3 owners, thorough <=4 owners, i.e. k<=5), sound_slice a 1/48 (quick, 4 owners) resp. 1/8 (thorough, 5 owners) slice of the next size. chain_* compare the NSEC chain hickory generates with the RFC 4035 2.3 chain of the model. Completeness case = (zone, query) whose truth is negative or wildcard-expanded, answered by hickory's own signed zone through Catalog::handle_request and judged by verify_nsec (complete_enum exhaustive over depth-2 zones with <=2/<=4 owners x 32 names x 4 types; complete_sampled deeper zones) and by the real DnssecDnsHandle (complete_e2e); every such case is non-trivial. sound_forged_expansion_e2e: the genuine NSEC + RRSIG of a wildcard owner *.X renamed to a query name below X (its signature then verifies like a wildcard expansion) is presented to the real DnssecDnsHandle as NODATA proof; non-trivial when the claim is false in the zone (the type exists at the name, or the name does not exist).",
         assumptions: vec![
             "truth predicate = refm::zonemodel (RFC 1034 4.3.2, RFC 4592 existence/closest encloser/source of synthesis incl. ENT wildcards, RFC 4035 3.1.4 DS at the parent side); small scope: labels {a,b,*,c,!,~}, query depth <= 4, <= 10 owners",
             "answers passed to verify_nsec carry proof=Secure (state after a successful RRSIG check); wildcard answers only with RRSIGs that can verify (a genuine wildcard owner above the query name)",
@@ -994,6 +1143,7 @@ pub fn check() -> Option<Check> {
             comp_enum,
             comp_sampled,
             comp_e2e,
+            forged_e2e,
         ],
     })
 }
